@@ -2,7 +2,7 @@
 Decided clause (admission and pending-seek discipline only)."""
 import re
 
-from .. import mir, sig, shape, atoms, flow
+from .. import mir, sig, shape, atoms, flow, coup
 from ..core import where
 from ..ctx import prog, SYS, Z
 
@@ -14,17 +14,24 @@ EXPLANATION = (
     "gzputc, gzsetparams, gzclose_w) every path from entry to the first such effect crosses either the `!state.seek` edge or the block "
     "that clears seek and applies gz_skip / gz_zero; listed exceptions: gzgetc's have != 0 fast path (a pending seek implies have == 0), "
     "the seek machinery itself. WHO: state.seek/skip are written only by gzseek64, gz_reset, gzrewind_help and the appliers. GUARD: "
-    "gz_zero establishes the write buffers (gz_init) before it sizes and zero-fills its first chunk, or every caller does. Everything "
-    "else of the gz layer (buffering, member chaining, gzseek arithmetic, file contents) is not decided.")
+    "gz_zero establishes the write buffers (gz_init) before it sizes and zero-fills its first chunk, or every caller does. COUP "
+    "gz-cursor: wherever the read side consumes buffered output (`have -= n` in gz_read, gz_skip, gzgetc, gzgets, gzseek64; "
+    "`have += 1` in gzungetc) `next` and `pos` move by the same expression in the matching direction; on the write side (gz_write, "
+    "gz_zero, gzputc, gzvprintf in K5) every `pos += d` has `stream.avail_in += d` or `= d` beside it and vice versa. LOOK: gz_look "
+    "examines the k+1 magic bytes only under `avail_in > k`, and every path to a format verdict (writes of how/eof/direct) either "
+    "crossed an `avail_in >= 2` edge or went through the gz_avail refill. Everything else of the gz layer (buffer contents, member "
+    "chaining, gzseek arithmetic, file contents) is not decided.")
 
 CLAIM = dict(
     text="Static sibling rule over the gz entry points (same admission tests before the first effect) and cut-set proofs that a "
-         "pending seek is applied before the cursor moves, plus the zero-fill precondition of gz_zero. A read or write that "
-         "ignores a pending seek, or runs in the wrong mode/error state, returns bytes from the wrong logical position "
-         "(necessary condition). The data path of the gz layer is not decided.",
+         "pending seek is applied before the cursor moves, plus the zero-fill precondition of gz_zero, the coupling of the "
+         "read cursor (have/next/pos) and of pos with the queued input on the write side, and the refill-before-verdict rule of "
+         "the gzip-magic lookahead. A read or write that ignores a pending seek, runs in the wrong mode/error state, moves one "
+         "of the three cursor fields without the others, or classifies a member header from one buffered byte returns bytes "
+         "from the wrong logical position (necessary conditions). The rest of the gz data path is not decided.",
     note="Trusted: rustc MIR; the effect vocabulary (helper calls and cursor fields) and the exception list in rules/props/c17.py; "
          "K1 and K2 builds (gz feature).",
-    technique="sibling admission-test agreement + cut-set (pending seek before effect) analysis over rustc MIR",
+    technique="sibling admission-test agreement, cut-set (pending seek / refill before verdict) and cursor-coupling analysis over rustc MIR",
 )
 
 G = SYS + "gz::"
@@ -238,6 +245,127 @@ def gz_zero_precondition(ck, P, cfg):
               "initialising first (and gz_zero does not): a pending seek then emits unzeroed heap bytes" % sorted(set(bad)), where(gz))
 
 
+def _strip_from(e):
+    e = coup.strip_all_casts(e)
+    while isinstance(e, tuple) and e and e[0] == "call" and isinstance(e[1], str) and len(e[2]) == 1 \
+            and re.search(r"::(from|into|try_from|unwrap|unwrap_or_default)$|^num::from$", e[1]):
+        e = coup.strip_all_casts(e[2][0])
+    return e
+
+
+def _adjusts(fn, field, depth=1):
+    """relative adjustments `state.<field> = state.<field> +/- d` -> [(sign, fmt(d), bb, line)]; absolute writes -> 'abs'"""
+    rel, absw = [], []
+    for bi, fp, root, rv, st in fn.field_writes():
+        if fp[-1] != field or (("stream" in fp) != (depth == 2)):
+            continue
+        a = coup.adjustment(field, rv)
+        line = st.get("line") if isinstance(st, dict) else None
+        if a:
+            rel.append((a[0], mir.fmt(_strip_from(a[1])), bi, line))
+        else:
+            absw.append((mir.fmt(_strip_from(mir.strip_casts(rv))), bi, line))
+    return rel, absw
+
+
+# `have += bytes_read` in gz_fetch's Copy arm refills the output buffer from the file (next is re-pointed to its start);
+# it is the producer side, not a consumer step of the read cursor.
+CURSOR_EXEMPT = {"gz_fetch": "producer: refills the buffer (next re-pointed absolutely)"}
+WRITE_POS_FUNCS = ["gz_write", "gz_zero", "gzputc"]
+
+
+def gz_cursor(ck, P, cfg, write_funcs=WRITE_POS_FUNCS, floors=(6, 4)):
+    """COUP: the read cursor (have, next, pos) moves as one; on the write side pos grows by exactly what is queued"""
+    R = "COUP/gz-cursor"
+    n = 0
+    for f in sorted(P.fns.values(), key=lambda f: f.path):
+        if not f.path.startswith(G) or f.is_promoted:
+            continue
+        name = f.path[len(G):]
+        have, _ = _adjusts(f, "have")
+        if not have or name in CURSOR_EXEMPT:
+            continue
+        ck.use_fn(f)
+        nxt, _ = _adjusts(f, "next")
+        pos, _ = _adjusts(f, "pos")
+        for i, (sgn, d, bb, line) in enumerate(have):
+            n += 1
+            okn = any(s2 == -sgn and d2 == d for s2, d2, _, _ in nxt)
+            okp = any(s2 == -sgn and d2 == d for s2, d2, _, _ in pos)
+            ck.decide(okn and okp, R, "%s:have%s#%d@%s" % (name, "-" if sgn < 0 else "+", i, cfg),
+                      "next and pos move by the same amount in the opposite direction",
+                      "gz::%s changes `have` by %s%s but does not move %s by the same amount: the bytes handed out, the "
+                      "buffer cursor and the logical position (gztell, seeks) fall out of step"
+                      % (name, "-" if sgn < 0 else "+", d, " and ".join(x for x, ok in (("next", okn), ("pos", okp)) if not ok)),
+                      where(f, line))
+    ck.floor(R + ":read@" + cfg, n, floors[0])
+    m = 0
+    for name in write_funcs:
+        f = P.fn(G + name)
+        if not ck.anchor("fn gz::%s (%s)" % (name, cfg), f):
+            continue
+        ck.use_fn(f)
+        pos, _ = _adjusts(f, "pos")
+        ain_rel, ain_abs = _adjusts(f, "avail_in", depth=2)
+        for i, (sgn, d, bb, line) in enumerate(pos):
+            m += 1
+            ok = sgn > 0 and (any(s2 > 0 and d2 == d for s2, d2, _, _ in ain_rel) or any(v == d for v, _, _ in ain_abs))
+            ck.decide(ok, R, "%s:pos+#%d@%s" % (name, i, cfg), "the same amount (%s) is queued in stream.avail_in" % d[:60],
+                      "gz::%s advances the logical position by %s without queueing exactly that many input bytes "
+                      "(stream.avail_in): gztell and the file contents disagree" % (name, d), where(f, line))
+        # and the converse: every growth of avail_in is accounted in pos
+        for i, (sgn, d, bb, line) in enumerate(ain_rel):
+            if sgn > 0:
+                m += 1
+                ck.decide(any(s2 > 0 and d2 == d for s2, d2, _, _ in pos), R, "%s:avail_in+#%d@%s" % (name, i, cfg),
+                          "accounted in pos", "gz::%s queues %s more input bytes without advancing the logical position" % (name, d),
+                          where(f, line))
+    ck.floor(R + ":write@" + cfg, m, floors[1])
+
+
+def magic_lookahead(ck, P, cfg):
+    """LOOK: gz_look decides 'not a gzip header' only after it tried to get as many bytes as it examines"""
+    R = "LOOK/refill-before-verdict"
+    f = P.fn(G + "gz_look")
+    if not ck.anchor("fn gz::gz_look (%s)" % cfg, f):
+        return
+    ck.use_fn(f)
+    # bytes of the header examined: *next_in and *next_in.add(k)
+    ks = []
+    for c in f.live_calls(r"const_ptr::add$|mut_ptr::add$"):
+        a = f.call_args(c)
+        if len(a) == 2 and mir.mentions_field(a[0], "next_in"):
+            k = f.const_of(a[1])
+            if k is not None:
+                ks.append((k, c))
+    if not ck.anchor("peek at next_in.add(k) in gz_look (%s)" % cfg, ks):
+        return
+    need = max(k for k, _ in ks) + 1
+
+    def has_enough(a, n):
+        s = sig.sig(a, f)
+        return s.rel == "Le" and "avail_in" in s.hi_names and any(isinstance(c, int) and c >= n for c in s.lo_consts)
+
+    for k, c in ks:
+        ok = any(has_enough(a, k + 1) for a in f.dominating_atoms(c.bb))
+        ck.decide(ok, "LOOK/peek-guard", "gz_look:next_in[%d]@%s" % (k, cfg), "read only when avail_in > %d" % k,
+                  "gz_look reads input byte %d without a dominating avail_in > %d test" % (k, k), where(f, c.line))
+    verdict = {bi for bi, fp, root, rv, st in f.field_writes() if fp in (("how",), ("eof",), ("direct",))}
+    refill = {c.bb for c in f.live_calls(r"gz::gz_avail$")}
+
+    def enough_edge(b, lab, tb):
+        if lab is None or lab[0] == "const":
+            return False
+        return any(has_enough(a, need) for a in f.edge_atoms(b, lab))
+
+    leak = flow.reaches_avoiding(f, [0], verdict, cut_blocks=refill, cut_edges=enough_edge)
+    ck.decide(bool(verdict) and bool(refill) and not leak, R, "gz_look@" + cfg,
+              "every path to a format verdict has >= %d buffered bytes or went through gz_avail" % need,
+              "gz_look can classify the input (gzip / trailing garbage / plain copy) with fewer than the %d magic bytes it "
+              "examines buffered and without trying to read more: a member header split across a buffer refill is taken for "
+              "trailing garbage or plain data" % need, where(f))
+
+
 def _admission_subset(ck, P, cfg):
     global READ_ENTRIES
     re_ = READ_ENTRIES
@@ -282,6 +410,7 @@ def run(ck):
         SEEK_FUNCS = {"read": [], "write": ["gzvprintf"]}
         try:
             _admission_subset(ck, P5, "K5")
+            gz_cursor(ck, P5, "K5", write_funcs=WRITE_POS_FUNCS + ["gzvprintf"], floors=(6, 6))
         finally:
             WRITE_ENTRIES, SEEK_FUNCS = we, sf
     for cfg in ("K1", "K2"):
@@ -290,4 +419,6 @@ def run(ck):
         admission(ck, P, cfg)
         pending_seek(ck, P, cfg)
         gz_zero_precondition(ck, P, cfg)
+        gz_cursor(ck, P, cfg)
+        magic_lookahead(ck, P, cfg)
     ck.assumptions += ["rustc MIR", "effect vocabulary and exception list in rules/props/c17.py", "K1 and K2 (gz feature)"]
